@@ -251,3 +251,39 @@ Fixpoint closest_thr_loop (g : grid) (rn rd : Z) (rs : list Z) (level prev : Z) 
 Definition closest_level_thr (g : grid) (ths_asc : list Z) (rn rd : Z) : Z :=
   let '(th, ths) := thr_init (res_at g 0) (rev ths_asc) in
   closest_thr_loop g rn rd (ress g) 0 (res_at g 0) th ths None (-1).
+
+(* ---- requests in another SRS than the grid: get_affected_bbox_and_level(bbox, size, req_srs) computes
+   src_bbox = calculate_bbox(T(generate_envelope_points(bbox, 16))) where T is the PROJ transformation (external:
+   the model takes the list of transformed points) *)
+(* mapproxy.srs.calculate_bbox for finite points (x, y) :: rest *)
+Fixpoint bbox_of_points (x y : Z) (rest : list (Z * Z)) : bbox :=
+  match rest with
+  | [] => (x, y, x, y)
+  | (px, py) :: r => let '(a, b, c, d) := bbox_of_points x y r in (Z.min a px, Z.min b py, Z.max c px, Z.max d py)
+  end.
+Definition calculate_bbox (pts : list (Z * Z)) : option bbox :=
+  match pts with
+  | [] => None                                  (* TransformationError *)
+  | (x, y) :: rest => Some (bbox_of_points x y rest)
+  end.
+(* mapproxy.srs.generate_envelope_points(bbox, n): number of steps per edge *)
+Definition env_steps (n : Z) : Z := (if n <=? 4 then 0 else cdiv (n - 4) 4) + 1.
+(* i * (width / steps) is modelled exactly as (i * width) / steps (the correspondence uses widths divisible by steps) *)
+Definition envelope_points (b : bbox) (n : Z) : list (Z * Z) :=
+  let '(x0, y0, x1, y1) := b in
+  let k := env_steps n in
+  let w := x1 - x0 in
+  let h := y1 - y0 in
+  let minx := Z.min x0 x1 in let maxx := Z.max x0 x1 in
+  let miny := Z.min y0 y1 in let maxy := Z.max y0 y1 in
+  map (fun i => (minx + i * w / k, miny)) (zrange 0 k) ++
+  map (fun i => (maxx, miny + i * h / k)) (zrange 1 (k - 1)) ++
+  map (fun i => (minx + i * w / k, maxy)) (rev (zrange 0 k)) ++
+  map (fun i => (minx, miny + i * h / k)) (rev (zrange 1 (k - 1))).
+(* get_affected_bbox_and_level with req_srs <> grid srs; tpts = the transformed envelope points.
+   None = NoTiles (or TransformationError for an empty point list) *)
+Definition affected_level_foreign (g : grid) (tpts : list (Z * Z)) (sx sy : Z) : option (bbox * Z) :=
+  match calculate_bbox tpts with
+  | None => None
+  | Some b => match affected_level g b sx sy with Some l => Some (b, l) | None => None end
+  end.
